@@ -33,6 +33,8 @@ RULE = ("Problems are built from a Hypothesis-drawn seed: r=1-8 unknowns, n=1-5 
         "iterations before being reported (slow convergence is not a violation, a wrong fixed point is). Oracle: KKT "
         "certificate at 1e-7*(1+max|UtM|), objective within 1e-8 relative of scipy.optimize.nnls on the augmented "
         "problem, solution within the strong-convexity bound; ADMM(n_const=None) against numpy.linalg.solve. "
+        "resolve_same_arrays: cold solve then warm re-solve on the very same array objects, both certified against "
+        "pristine copies. "
         "Non-trivial: the reference solution has >= 1 active and >= 1 inactive constraint (ADMM: r >= 2); distinct = "
         "distinct case hash.")
 ASSUMPTIONS = ["NumPy linalg (svd, qr, solve, lstsq) is correct",
